@@ -52,12 +52,17 @@ type docCfg struct {
 	Level  string            `json:"level,omitempty"` // strict | permissive | audit | skip
 	Ov     map[string]string `json:"override,omitempty"`
 	Global bool              `json:"global,omitempty"` // blob: the statement is the global one and no name is given
+	// NoneKind: how "no applicable statement" is realised. OCI: 0/1 another repository, 2 empty reference,
+	// 3 tag reference without '@', 4 upper-case host, 5 several '@'. Blob: 0 unknown name (or no global statement),
+	// 1 unknown name, 2 blank name
+	NoneKind int `json:"none_kind,omitempty"`
 }
 
 type pmCfg struct {
 	Kind     int      `json:"kind"`           // 0 nil manager, 1 Get fails, 2 plugin installed
 	Meta     int      `json:"meta,omitempty"` // 0 GetMetadata error, 1 (nil, nil), 2 metadata
 	VerValid bool     `json:"ver_valid,omitempty"`
+	VerKind  int      `json:"ver_kind,omitempty"` // which valid (or invalid) version text the plugin reports
 	Caps     []string `json:"caps,omitempty"` // TI | Rev | Other
 }
 
@@ -65,7 +70,7 @@ type scCfg struct {
 	Sig       int    `json:"sig"` // 0 empty, 1 integrity fails, 2 verifies
 	Format    string `json:"format"`
 	PAttr     int    `json:"pattr"`     // 0 absent, 1 invalid, 2 names plugin "plug"
-	PInvKind  int    `json:"pinv_kind"` // 0 not critical, 1 not a string, 2 blank
+	PInvKind  int    `json:"pinv_kind"` // 0 not critical, 1 not a string, 2 blank, 3 empty string
 	Minver    int    `json:"minver"`    // 0 absent, 1 valid and satisfied, 2 invalid, 3 valid but above the plugin version
 	NonStr    bool   `json:"nonstr_crit"`
 	Crit      bool   `json:"crit"`
@@ -90,6 +95,10 @@ type scCfg struct {
 	// bit2 payload with an empty annotation map instead of none; bit3 empty (non-nil) processedAttributes /
 	// verificationResults instead of nil; bit4 empty (non-nil) plugin config
 	Variant int `json:"variant,omitempty"`
+	// further realisation choices the model's facts do not depend on
+	NonCritAttr   bool `json:"noncrit_attr,omitempty"`    // a non-critical extended attribute (string key) no plugin lists as processed
+	NonStrNonCrit bool `json:"nonstr_noncrit,omitempty"`  // a non-critical extended attribute under an integer label (COSE)
+	AttrOrder     int  `json:"attr_order,omitempty"`      // 0 as built, 1 reversed, 2 rotated by one
 }
 
 type implCfg struct {
@@ -262,7 +271,10 @@ func optBool(k int) string {
 }
 
 func scTerm(s scCfg) string {
-	s.Variant, s.RespJSON = 0, ""
+	s.Variant, s.RespJSON, s.NonCritAttr, s.NonStrNonCrit, s.AttrOrder = 0, "", false, false, 0
+	if s.PInvKind == 3 {
+		s.PInvKind = 2
+	}
 	if s == okSc() {
 		return "sc0"
 	}
@@ -349,7 +361,8 @@ type libVerifier interface {
 }
 
 type env struct {
-	shared   libVerifier // history groups: the one verifier instance all steps use
+	shared      libVerifier // history groups: the one verifier instance all steps use
+	sharedParts *parts
 	now      time.Time
 	good     Chain
 	other    Chain
@@ -405,7 +418,7 @@ func (e *env) envelope(s scCfg) []byte {
 	if pk == 1 && s.Variant&4 != 0 {
 		pk = 11
 	}
-	key := fmt.Sprintf("%s|%d|%d|%d|%v|%v|%v|%d|%d", s.Format, s.PAttr, s.PInvKind, s.Minver, s.NonStr, s.Crit, s.ExpFail, pk, s.Sig)
+	key := fmt.Sprintf("%s|%d|%d|%d|%v|%v|%v|%d|%d|%v|%v|%d", s.Format, s.PAttr, s.PInvKind, s.Minver, s.NonStr, s.Crit, s.ExpFail, pk, s.Sig, s.NonCritAttr, s.NonStrNonCrit, s.AttrOrder)
 	if b, ok := e.envCache[key]; ok {
 		return b
 	}
@@ -417,6 +430,8 @@ func (e *env) envelope(s scCfg) []byte {
 			attrs = append(attrs, signature.Attribute{Key: hdrPlugin, Critical: false, Value: "plug"})
 		case 1:
 			attrs = append(attrs, signature.Attribute{Key: hdrPlugin, Critical: true, Value: 42})
+		case 3:
+			attrs = append(attrs, signature.Attribute{Key: hdrPlugin, Critical: true, Value: ""})
 		default:
 			attrs = append(attrs, signature.Attribute{Key: hdrPlugin, Critical: true, Value: "  "})
 		}
@@ -436,6 +451,20 @@ func (e *env) envelope(s scCfg) []byte {
 	}
 	if s.NonStr {
 		attrs = append(attrs, signature.Attribute{Key: int64(1000), Critical: true, Value: "int-labelled"})
+	}
+	if s.NonCritAttr {
+		attrs = append(attrs, signature.Attribute{Key: "io.example.optional", Critical: false, Value: ""})
+	}
+	if s.NonStrNonCrit {
+		attrs = append(attrs, signature.Attribute{Key: int64(2000), Critical: false, Value: "int-labelled, optional"})
+	}
+	switch {
+	case s.AttrOrder == 1:
+		for i, j := 0, len(attrs)-1; i < j; i, j = i+1, j-1 {
+			attrs[i], attrs[j] = attrs[j], attrs[i]
+		}
+	case s.AttrOrder == 2 && len(attrs) > 1:
+		attrs = append(attrs[1:], attrs[0])
 	}
 	st := e.now.Add(-2 * time.Hour)
 	var exp time.Time
@@ -674,11 +703,128 @@ func (e *env) policyParts(s scCfg) (stores, identities []string) {
 // build constructs the verifier the case describes. The policy statement is
 // shaped after the scenario sc (the single-signature entry points) or the
 // first listed signature.
-func (e *env) build(c *lcase, sc scCfg) (v interface {
-	notation.Verifier
-	notation.BlobVerifier
-	SkipVerify(ctx context.Context, opts notation.VerifierVerifyOptions) (bool, *trustpolicy.VerificationLevel, error)
-}, mgr *MockManager, err error) {
+// parts are the injected components of a verifier; they can be re-scripted
+// between the calls of a history (the verifier instance stays the same).
+type parts struct {
+	rev   *RevScript
+	mgr   *MockManager
+	store *MockStore
+}
+
+func (e *env) scriptRev(rs *RevScript, sc scCfg) {
+	var results []*revresult.CertRevocationResult
+	mk := func(r revresult.Result) *revresult.CertRevocationResult { return &revresult.CertRevocationResult{Result: r} }
+	for i := 0; i < len(e.good); i++ {
+		results = append(results, mk(revresult.ResultOK))
+	}
+	var verr error
+	switch sc.Rev {
+	case 1:
+		results[0] = mk(revresult.ResultRevoked)
+	case 2:
+		results, verr = nil, errors.New("c12: validator fails")
+	case 3:
+		results = append(results, mk(revresult.ResultOK))
+	case 4:
+		results[1] = nil
+	}
+	rs.Results, rs.Err = results, verr
+}
+
+func scriptManager(mgr *MockManager, pm pmCfg, sc scCfg) {
+	if mgr == nil {
+		return
+	}
+	for k := range mgr.Plugins {
+		delete(mgr.Plugins, k)
+	}
+	if pm.Kind != 2 {
+		return
+	}
+	p := &MockPlugin{}
+	switch pm.Meta {
+	case 0:
+		p.MetaErr = errors.New("c12: get-plugin-metadata fails")
+	case 2:
+		ver := []string{"1.2.0", "1.2.0+build.5", "1.2.0-rc.1+x"}[pm.VerKind%3]
+		if !pm.VerValid {
+			ver = []string{"1.2", "v1.2.0", ""}[pm.VerKind%3]
+		}
+		var caps []pluginfw.Capability
+		for _, k := range pm.Caps {
+			switch k {
+			case "TI":
+				caps = append(caps, pluginfw.CapabilityTrustedIdentityVerifier)
+			case "Rev":
+				caps = append(caps, pluginfw.CapabilityRevocationCheckVerifier)
+			default:
+				caps = append(caps, pluginfw.CapabilitySignatureGenerator)
+			}
+		}
+		p.Meta = &pluginfw.GetMetadataResponse{Name: "plug", Description: "scripted", Version: ver, URL: "https://example", SupportedContractVersions: []string{"1.0"}, Capabilities: caps}
+	}
+	switch {
+	case sc.RespJSON != "":
+		resp, err := decodeResp(sc.RespJSON)
+		p.Resp = resp
+		if err != nil {
+			p.VerifyErr = fmt.Errorf("c12: malformed verify-signature response: %w", err)
+		}
+	case sc.Resp == 0:
+		p.VerifyErr = errors.New("c12: verify-signature fails")
+	case sc.Resp == 2:
+		resp := &pluginfw.VerifySignatureResponse{}
+		if sc.Variant&8 != 0 || sc.TI != 0 || sc.RevV != 0 {
+			resp.VerificationResults = map[pluginfw.Capability]*pluginfw.VerificationResult{}
+		}
+		if sc.Variant&8 != 0 {
+			resp.ProcessedAttributes = []interface{}{}
+		}
+		if sc.AllProc {
+			resp.ProcessedAttributes = []interface{}{critKey}
+		}
+		if sc.TI != 0 {
+			resp.VerificationResults[pluginfw.CapabilityTrustedIdentityVerifier] = &pluginfw.VerificationResult{Success: sc.TI == 1, Reason: "scripted"}
+		}
+		if sc.RevV != 0 {
+			resp.VerificationResults[pluginfw.CapabilityRevocationCheckVerifier] = &pluginfw.VerificationResult{Success: sc.RevV == 1, Reason: "scripted"}
+		}
+		p.Resp = resp
+	}
+	mgr.Plugins["plug"] = p
+}
+
+func (e *env) scriptStore(ms *MockStore, sc scCfg) {
+	if ms == nil {
+		return
+	}
+	k := StoreKey{Type: truststore.TypeCA, Name: "s"}
+	delete(ms.Certs, k)
+	delete(ms.Fail, k)
+	switch sc.Auth {
+	case 0:
+		ms.Put(truststore.TypeCA, "s", e.good[len(e.good)-1].C)
+	case 1:
+		ms.Fail[k] = true
+	case 2:
+		ms.Put(truststore.TypeCA, "s", e.other[len(e.other)-1].C)
+	}
+}
+
+// rescript makes the injected components of the shared verifier answer as the case says.
+func (e *env) rescript(c *lcase, sc scCfg) {
+	if e.sharedParts == nil {
+		return
+	}
+	e.scriptRev(e.sharedParts.rev, sc)
+	scriptManager(e.sharedParts.mgr, c.PM, sc)
+	e.scriptStore(e.sharedParts.store, sc)
+}
+
+// build constructs the verifier the case describes. The policy statement is
+// shaped after the scenario sc (the single-signature entry points) or the
+// first listed signature.
+func (e *env) build(c *lcase, sc scCfg) (v libVerifier, pt *parts, err error) {
 	stores, identities := e.policyParts(sc)
 	opts := verifier.VerifierOptions{}
 	if c.OCI.Kind != 0 {
@@ -699,101 +845,24 @@ func (e *env) build(c *lcase, sc scCfg) (v interface {
 			TrustStores:           st, TrustedIdentities: id, GlobalPolicy: c.Blob.Global && c.Blob.Kind >= 2,
 		}}}
 	}
-	// revocation validator scripted after the scenario
-	var results []*revresult.CertRevocationResult
-	n := len(e.good)
-	mk := func(r revresult.Result) *revresult.CertRevocationResult { return &revresult.CertRevocationResult{Result: r} }
-	for i := 0; i < n; i++ {
-		results = append(results, mk(revresult.ResultOK))
-	}
-	var verr error
-	switch sc.Rev {
-	case 1:
-		results[0] = mk(revresult.ResultRevoked)
-	case 2:
-		results, verr = nil, errors.New("c12: validator fails")
-	case 3:
-		results = append(results, mk(revresult.ResultOK))
-	case 4:
-		results[1] = nil
-	}
-	script, _ := NewRevScript(results, verr)
-	opts.RevocationCodeSigningValidator = script.Validator()
-	switch c.PM.Kind {
-	case 1:
-		mgr = &MockManager{Plugins: map[string]*MockPlugin{}}
-	case 2:
-		p := &MockPlugin{}
-		switch c.PM.Meta {
-		case 0:
-			p.MetaErr = errors.New("c12: get-plugin-metadata fails")
-		case 2:
-			ver := "1.2.0"
-			if !c.PM.VerValid {
-				ver = "1.2"
-			}
-			var caps []pluginfw.Capability
-			for _, k := range c.PM.Caps {
-				switch k {
-				case "TI":
-					caps = append(caps, pluginfw.CapabilityTrustedIdentityVerifier)
-				case "Rev":
-					caps = append(caps, pluginfw.CapabilityRevocationCheckVerifier)
-				default:
-					caps = append(caps, pluginfw.CapabilitySignatureGenerator)
-				}
-			}
-			p.Meta = &pluginfw.GetMetadataResponse{Name: "plug", Description: "scripted", Version: ver, URL: "https://example", SupportedContractVersions: []string{"1.0"}, Capabilities: caps}
-		}
-		switch {
-		case sc.RespJSON != "":
-			resp, err := decodeResp(sc.RespJSON)
-			p.Resp = resp
-			if err != nil {
-				p.VerifyErr = fmt.Errorf("c12: malformed verify-signature response: %w", err)
-			}
-		case sc.Resp == 0:
-			p.VerifyErr = errors.New("c12: verify-signature fails")
-		case sc.Resp == 2:
-			resp := &pluginfw.VerifySignatureResponse{}
-			if sc.Variant&8 != 0 || sc.TI != 0 || sc.RevV != 0 {
-				resp.VerificationResults = map[pluginfw.Capability]*pluginfw.VerificationResult{}
-			}
-			if sc.Variant&8 != 0 {
-				resp.ProcessedAttributes = []interface{}{}
-			}
-			if sc.AllProc {
-				resp.ProcessedAttributes = []interface{}{critKey}
-			}
-			if sc.TI != 0 {
-				resp.VerificationResults[pluginfw.CapabilityTrustedIdentityVerifier] = &pluginfw.VerificationResult{Success: sc.TI == 1, Reason: "scripted"}
-			}
-			if sc.RevV != 0 {
-				resp.VerificationResults[pluginfw.CapabilityRevocationCheckVerifier] = &pluginfw.VerificationResult{Success: sc.RevV == 1, Reason: "scripted"}
-			}
-			p.Resp = resp
-		}
-		mgr = &MockManager{Plugins: map[string]*MockPlugin{"plug": p}}
-	}
-	if mgr != nil {
-		opts.PluginManager = mgr
+	pt = &parts{}
+	pt.rev, _ = NewRevScript(nil, nil)
+	e.scriptRev(pt.rev, sc)
+	opts.RevocationCodeSigningValidator = pt.rev.Validator()
+	if c.PM.Kind != 0 {
+		pt.mgr = &MockManager{Plugins: map[string]*MockPlugin{}}
+		scriptManager(pt.mgr, c.PM, sc)
+		opts.PluginManager = pt.mgr
 	}
 	var store truststore.X509TrustStore
 	if !c.TSNil {
-		ms := NewMockStore()
-		switch sc.Auth {
-		case 0:
-			ms.Put(truststore.TypeCA, "s", e.good[len(e.good)-1].C)
-		case 1:
-			ms.Fail[StoreKey{Type: truststore.TypeCA, Name: "s"}] = true
-		case 2:
-			ms.Put(truststore.TypeCA, "s", e.other[len(e.other)-1].C)
-		}
-		store = ms
+		pt.store = NewMockStore()
+		e.scriptStore(pt.store, sc)
+		store = pt.store
 	}
 	vv, err := verifier.NewVerifierWithOptions(store, opts)
 	if err != nil {
-		return nil, mgr, err
+		return nil, pt, err
 	}
 	// the caller edits the document it handed over, after the constructor validated it
 	if c.OCI.Kind == 3 {
@@ -802,13 +871,23 @@ func (e *env) build(c *lcase, sc scCfg) (v interface {
 	if c.Blob.Kind == 3 {
 		opts.BlobTrustPolicy.TrustPolicies[0].SignatureVerification.VerificationLevel = ""
 	}
-	return vv, mgr, nil
+	return vv, pt, nil
 }
 
 var _ plugin.Manager = (*MockManager)(nil)
 
 func (e *env) ociRef(d docCfg) string {
 	if d.Kind == 1 {
+		switch d.NoneKind {
+		case 2:
+			return ""
+		case 3:
+			return TestScope + ":v1"
+		case 4:
+			return "REG.EXAMPLE/repo@" + e.desc.Digest.String()
+		case 5:
+			return TestScope + "@x@" + e.desc.Digest.String()
+		}
 		return "reg.example/elsewhere@" + e.desc.Digest.String()
 	}
 	return e.ref
@@ -816,6 +895,12 @@ func (e *env) ociRef(d docCfg) string {
 
 func blobPolicyName(d docCfg) string {
 	if d.Kind == 1 {
+		switch d.NoneKind {
+		case 1:
+			return "no-such-statement"
+		case 2:
+			return " "
+		}
 		if d.Global {
 			return "" // the global statement is asked for; the document has none
 		}
@@ -887,6 +972,7 @@ func (e *env) execCase(c *lcase) (term string) {
 	}
 	if lib && e.shared != nil {
 		v = e.shared
+		e.rescript(c, sc)
 	} else if lib {
 		var err error
 		v, _, err = e.build(c, sc)
@@ -1069,11 +1155,11 @@ func run(a *Args) error {
 		}
 		base.Entry = "Verify"
 		normalize(&base)
-		v, _, err := e.build(&base, base.Sc)
+		v, pt, err := e.build(&base, base.Sc)
 		if err != nil {
 			panic(fmt.Sprintf("c12: history base refused: %v", err))
 		}
-		e.shared = v
+		e.shared, e.sharedParts = v, pt
 		for _, st := range steps {
 			c := base
 			c.N.Items = nil
@@ -1081,7 +1167,7 @@ func run(a *Args) error {
 			normalize(&c)
 			emitMode(&c, true)
 		}
-		e.shared = nil
+		e.shared, e.sharedParts = nil, nil
 	}
 
 	// corpus first
